@@ -4,10 +4,10 @@ import itertools
 ROOTS = ['root', 'r', 'static.d']
 STORES = ['sess', 'sess2']
 WSGI_VARIANTS = ['std', 'std', 'std', 'noindex', 'rootmount', 'nested', 'slashdir', 'unnorm', 'match',
-                 'norootrel', 'script', 'dblslash']
+                 'norootrel', 'script', 'dblslash', 'file', 'file-rel']
 MOUNT = {'std': '/static', 'noindex': '/static', 'rootmount': '', 'nested': '/s/t', 'slashdir': '/static',
          'unnorm': '/static', 'match': '/static', 'norootrel': '/static', 'script': '/static',
-         'dblslash': '/static'}
+         'dblslash': '/static', 'file': '/sf', 'file-rel': '/sf'}
 SPELLINGS = ['abs', 'abs', 'slash', 'unnorm', 'dotslash', 'rel+root', 'rel+root/', 'dblslash', 'rel-noroot']
 S_SPELLINGS = ['abs', 'abs', 'slash', 'unnorm', 'dotslash', 'dblslash']
 
